@@ -51,6 +51,8 @@ def k3_model(a0, op, X):
 def run_case(rs, ctx):
     p = gen.NP_KINDS[ctx.index % 6]
     b0 = NAMES[(ctx.index // 6) % len(NAMES)]
+    if b0 == "table" and p in ("clusters", "tree"):
+        b0 = "thr_inside"  # Clusters copies its learning policy at construction: a table extended later is not seen there (documented copy)
     labels = gen.pick(rs, ["int", "str", "float"])
     n_arms = int(rs.integers(2, 5))
     cfgA = gen.gen_cfg(rs, "ts", p, labels=labels, n_arms=n_arms, binarizer=b0, seed=int(rs.integers(10 ** 6)))
@@ -61,6 +63,9 @@ def run_case(rs, ctx):
     cfgB["lp"]["binarizer"] = None
     nf = int(gen.pick(rs, [1, 2, 3]))
     sh = gen.Shadow(cfgA, nf)
+    binarizers.TABLE.table.clear()
+    for a_ in cfgA["arms"]:
+        binarizers.TABLE.know(a_)
     A, B = gen.build(cfgA), gen.build(cfgB)
     cur = b0
     used = [b0]
@@ -92,8 +97,9 @@ def run_case(rs, ctx):
                 continue
             op = o[0]
             opB = dict(op)
+            binarizers.TABLE.know(op["arm"])  # the owner of the threshold table enters the new arm before announcing it
             if k == "add_arm_b":
-                nb = "thr_big" if big_ints else gen.pick(rs, NAMES)
+                nb = "thr_big" if big_ints else gen.pick(rs, [n_ for n_ in NAMES if n_ != "table" or p not in ("clusters", "tree")])
                 op = dict(op, binarizer=nb)
                 replaced |= nb != cur
                 cur = nb
